@@ -372,6 +372,8 @@ class cached_custom_property(custom_property[_V, _U]):
         return value
 
     def __set__(self, instance: _U, value: _V) -> None:
+        if self._attr in instance.__dict__ and value is instance.__dict__[self._attr]:
+            return  # `model.view += items`: the view, already extended in place, is assigned back to itself.
         super().__set__(instance, value)
         instance.__dict__[self._attr] = value
 
